@@ -158,6 +158,10 @@ def _ite(c, a, b):
         return a.__sx_ite__(c, b)
     if hasattr(b, "__sx_ite__"):
         return b.__sx_ite__(z3.Not(c), a)
+    if isinstance(a, _dt.time) and isinstance(b, _dt.time):
+        return a if a == b else SymTime(a.hour, a.minute, a.second).__sx_ite__(c, b)
+    if isinstance(a, _dt.date) and isinstance(b, _dt.date) and not isinstance(a, _dt.datetime) and not isinstance(b, _dt.datetime):
+        return a if a == b else SymDate(a.toordinal()).__sx_ite__(c, b)
     return _old_ite(c, a, b)
 
 
@@ -231,9 +235,42 @@ class _Struct:
 sx_struct = _Struct()
 
 
+class _MathExact:
+    """the `math` module for instrumented code: degrees/radians of a symbolic binary64 are what CPython computes
+    (x * (180.0 / pi), x * (pi / 180.0): one correctly rounded multiplication by a constant); everything else is the real module"""
+
+    def degrees(self, x):
+        import math
+        from .proxies import SymFloat, SymOpt
+        if isinstance(x, SymOpt):
+            x = x._force()
+        if isinstance(x, SymInt):
+            x = SymFloat.lift(x)
+        if isinstance(x, SymFloat):
+            return SymFloat(z3.fpMul(z3.RNE(), x.t, z3.FPVal(180.0 / math.pi, z3.FPSort(11, 53))))
+        return math.degrees(x)
+
+    def radians(self, x):
+        import math
+        from .proxies import SymFloat, SymOpt
+        if isinstance(x, SymOpt):
+            x = x._force()
+        if isinstance(x, SymInt):
+            x = SymFloat.lift(x)
+        if isinstance(x, SymFloat):
+            return SymFloat(z3.fpMul(z3.RNE(), x.t, z3.FPVal(math.pi / 180.0, z3.FPSort(11, 53))))
+        return math.radians(x)
+
+    def __getattr__(self, k):
+        import math
+        return getattr(math, k)
+
+
 def install(utils_mod):
     """rebind the names utils.py uses"""
     g = utils_mod.__dict__
+    if "math" in g:
+        g["math"] = _MathExact()
     g["timedelta"] = sx_timedelta
     g["date"] = sx_date
     g["time"] = sx_time_ns
